@@ -467,3 +467,10 @@ Proof.
            (Kardia.C10.ToC09.run10_exec_ok keccak blockhash UW code_of_id stor_of_id id_of_code id_of_stor input_of env_of)).
 Qed.
 Print Assumptions C09_interpreter_block.
+
+(** The decision-critical functions of the anchored code have exactly the decisions the source tie knows about
+    (go2coq manifests, regenerated from /repo on every check; statement in SourceManifest.v). *)
+From Kardia Require Import C09.SourceManifest.
+Theorem C09_source_manifest : C09_source_manifest_statement.
+Proof. exact C09_source_manifest_proof. Qed.
+Print Assumptions C09_source_manifest.
